@@ -44,6 +44,32 @@ def _realize_args(args: tuple) -> list:
     return [deep_realize(a) for a in args]
 
 
+def _plain(x):
+    """Concrete builtin str (or None) from whatever the engine handed us."""
+    if x is None:
+        return None
+    from crosshair.core import deep_realize
+    from crosshair.tracers import NoTracing
+    x = deep_realize(x)
+    with NoTracing():
+        if type(x) is str:
+            return x
+        try:
+            return "".join(chr(ord(c)) for c in x) if isinstance(x, str) else repr(x)
+        except Exception:
+            return "<unrenderable %s>" % type(x).__name__
+
+
+def concretize(x):
+    """Ask the solver for a model value of x and continue with that concrete value (the engine then explores
+    the other values on later paths).  Used where the code under test hands the value to machinery the engine
+    cannot follow symbolically within budget (regex matcher, C codecs): the bound stays exhaustive, value by value."""
+    if _tracing():
+        from crosshair.core import deep_realize
+        return deep_realize(x)
+    return x
+
+
 def mark(counter: str) -> None:
     """Reachability counter: this path did the non-trivial thing named `counter`."""
     if _tracing():
@@ -69,6 +95,7 @@ def run(body: Callable[..., Any], *args: Any) -> bool:
     """Run `body(*args)`; its truthiness is the property verdict on this path."""
     global SAMPLE_BUDGET
     err = None
+    INFO.clear()
     try:
         ok = body(*args)
     except Exception as e:  # only Exception: CrossHair steers with BaseException
@@ -87,8 +114,14 @@ def run(body: Callable[..., Any], *args: Any) -> bool:
             vals = _realize_args(args)
             from crosshair.core import deep_realize
             why = deep_realize(INFO.get("why"))
-            errs = deep_realize(repr(err)) if err is not None else None
-            FAILS.append({"args": vals, "err": errs, "why": why if isinstance(why, str) else repr(why)})
+            errs = None
+            if err is not None:
+                import traceback
+                try:
+                    errs = deep_realize(type(err).__name__ + ": " + "".join(traceback.format_exception(err))[-1500:])
+                except Exception as e2:
+                    errs = type(err).__name__
+            FAILS.append({"args": vals, "err": _plain(errs), "why": _plain(why)})
         else:
             INFO["err"] = repr(err) if err is not None else None
             if err is not None:
